@@ -59,6 +59,10 @@ namespace ikos {
 
 template <typename Number> void congruence<Number>::normalize(void) {
   // Set to standard form: 0 <= b < a for a != 0
+  if (m_a < 0) {
+    // aZ+b and (-a)Z+b are the same set
+    m_a = -m_a;
+  }
   if (m_a != 0) {
     m_b = m_b % m_a;
     if (m_b < 0) {
